@@ -211,6 +211,14 @@ func headerUses(m *Module) []hdrUse {
 			hi, okh := constInt(sl.High)
 			if !okh {
 				hi = -1
+				// hdr[4:] of an array: up to the array's length
+				if sl.High == nil {
+					if pt, ok := sl.X.Type().Underlying().(*types.Pointer); ok {
+						if arr, ok := pt.Elem().Underlying().(*types.Array); ok {
+							hi = arr.Len()
+						}
+					}
+				}
 			}
 			u := hdrUse{fn: fn.Name(), order: order, lo: lo, hi: hi, pos: ci.Pos()}
 			if g.Name() == "PutUint32" {
